@@ -73,13 +73,19 @@ def _loads(b: bytes) -> Any:
 
 
 class Image:
-    """Private process-global state of one simulated process."""
+    """Private process-global state of one simulated process.
+
+    Hidden RNG streams plus the package's process state as defined in seams (module- and class-level
+    containers, arrays, scalars, objects bound to module globals such as a worker-side scratch object set
+    by a pool initializer, lazily created globals).  functools caches cannot be saved or restored; they are
+    evicted whenever control passes from one simulated process to another (always legal).
+    """
 
     def __init__(self) -> None:
         self.gen_states: list[dict] = []
         self.np_legacy: Any = None
         self.py_random: Any = None
-        self.scalars: dict[tuple[str, str], Any] = {}
+        self.state: dict | None = None
         self.pid = 0
         self.name = "MainProcess"
 
@@ -89,35 +95,34 @@ class Image:
         im.gen_states = [g.bit_generator.state for g in seams._hidden_generators()]
         im.np_legacy = np.random.get_state()
         im.py_random = random.getstate()
-        im.scalars = _scalar_globals()
+        im.state = seams.capture_process_state()
         im.pid, im.name = pid, name
         return im
 
     def copy(self, pid: int, name: str) -> "Image":
+        """What fork gives a child: a private copy of everything."""
         im = Image()
         im.gen_states = [dict(s) for s in self.gen_states]
         im.np_legacy, im.py_random = self.np_legacy, self.py_random
-        im.scalars = dict(self.scalars)
+        im.state = seams.copy_process_state(self.state)
         im.pid, im.name = pid, name
         return im
 
     def apply(self) -> None:
+        seams.apply_process_state(self.state)
         gens = seams._hidden_generators()
         for g, st in zip(gens, self.gen_states):
             g.bit_generator.state = st
         np.random.set_state(self.np_legacy)
         random.setstate(self.py_random)
-        for (mod, k), v in self.scalars.items():
-            m = sys.modules.get(mod)
-            if m is not None and getattr(m, k, None) is not v:
-                setattr(m, k, v)
         _STATE["pid"] = self.pid
         multiprocessing.current_process().name = self.name
 
 
 def fresh_image(sim: Sim, pid: int, name: str) -> Image:
-    """What a forkserver/spawn worker starts with: import-time scalars, new entropy."""
+    """What a forkserver/spawn worker starts with: import-time package state, new entropy."""
     im = Image.capture(pid, name)
+    im.state = None  # apply_process_state(None) = the state right after import
     seed = sim.choose(2 ** 32, "fresh-image-entropy")
     ss = np.random.SeedSequence(seed).generate_state(3)
     im.gen_states = [np.random.PCG64(int(ss[0]) + i).state for i in range(len(im.gen_states))]
@@ -127,10 +132,6 @@ def fresh_image(sim: Sim, pid: int, name: str) -> Image:
     np.random.set_state(saved)
     r = random.Random(int(ss[2]))
     im.py_random = r.getstate()
-    imp = _STATE["import_scalars"] or {}
-    for key in im.scalars:
-        if key in imp:
-            im.scalars[key] = imp[key]
     return im
 
 
@@ -212,8 +213,8 @@ class SimPool:
             return fn()
         finally:
             new = Image.capture(im.pid, im.name)
-            im.gen_states, im.np_legacy, im.py_random, im.scalars = \
-                new.gen_states, new.np_legacy, new.py_random, new.scalars
+            im.gen_states, im.np_legacy, im.py_random, im.state = \
+                new.gen_states, new.np_legacy, new.py_random, new.state
             parent_now.apply()
 
     # ------------------------------------------------------------ context manager
@@ -237,6 +238,9 @@ class SimPool:
 
     def __reduce__(self):
         raise NotImplementedError("pool objects cannot be passed between processes or pickled")
+
+    def __deepcopy__(self, memo):
+        return self  # a forked child inherits the handle; it is the same pool
 
     # ------------------------------------------------------------------ map family
     def _run_chunks(self, func: Callable, iterable: Iterable, mapper: Callable, chunksize: int | None,
